@@ -195,3 +195,18 @@ c12_mark(I) :- bb_get(c12_log, L), bb_put(c12_log, [I|L]), assertz(c12_l(I)).
 c12_reset :- bb_put(c12_log, []), retractall(c12_l(_)).
 c12_marks(Ms, As) :- bb_get(c12_log, L), reverse(L, Ms), findall(M, c12_l(M), As).
 c12_run(T, G, R) :- catch((findall(T, G, L), R = sols(L)), B, R = ball(B)).
+
+% ---------------------------------------------------------------------------
+% C26 helpers (non-backtrackable mark log)
+% ---------------------------------------------------------------------------
+c26_reset :- bb_put(c26_log, []).
+% the log is backtrackable: a goal woken by a binding that is undone again (inside \=, \+, or
+% the unifiability test dif/2 makes) leaves no trace, as if the binding had never happened
+c26_mark(I) :- bb_get(c26_log, L), bb_b_put(c26_log, [I|L]).
+c26_marks(Ms) :- bb_get(c26_log, L), reverse(L, Ms).
+% further bindings tried inside \+ \+; the wake-ups they cause are carried out of it
+c26_probe(J, Vs, Ts) :-
+    (  \+ \+ ( Vs = Ts, bb_get(c26_log, L0), bb_put(c26_tmp, L0) ) ->
+       bb_get(c26_tmp, L1), bb_b_put(c26_log, [y(J)|L1])
+    ;  c26_mark(n(J))
+    ).
